@@ -61,6 +61,14 @@ def execute(scn, keep_log=False, hook=None):
     scn = copy.deepcopy(scn)
     net = Dm14Net(scn, keep_log=keep_log)
     sim, bus = net.sim, net.bus
+    states = set()
+
+    def sample_states():
+        st_ = net.states()
+        st_['server_sa'] = st_['server_sa'] is not None
+        states.add(repr(sorted(st_.items())))
+        sim.after(2_000_000, sample_states, 'poll')
+    sim.after(2_000_000, sample_states, 'poll')
     viol = []
     stats = {k: 0 for k in REQUIRED_PROBES}
     t0 = sim.now
@@ -185,7 +193,7 @@ def execute(scn, keep_log=False, hook=None):
         if p and ops[-1]['fail'] == 'ok':
             viol.append({'clause': 'not-idle', 'rank': 3, 'msg': 'after the history: ' + ', '.join(p)})
     nt = any(o['fail'] != 'ok' for o in ops[:-1]) and ops[-1]['fail'] == 'ok'
-    res = {'violations': viol[:4], 'stats': dict(stats, frames=len(bus.frames)), 'nontrivial': nt, 'digest': sim.digest(), 'sim_s': (sim.now - t0) / 1e9,
+    res = {'violations': viol[:4], 'stats': dict(stats, frames=len(bus.frames)), 'nontrivial': nt, 'digest': sim.digest(), 'sim_s': (sim.now - t0) / 1e9, 'states': states,
            'summary': 'key=%s history=%s' % (scn.get('server_key'), [(o['op'], o['fail']) for o in ops])}
     if keep_log:
         res['log'] = sim.logbuf
